@@ -25,6 +25,11 @@ Definition potential (c : client) : nat :=
   lsum xw_out (c_outpipe c) + lsum xw_pend (c_pending c) + 2 * length (c_seginpipe c) + 2 * length (c_segfetch c)
   + c_segcheck c + sp_sum 0 (c_streams c).
 
+Lemma lsum_cons {A} (f : A -> nat) a l : lsum f (a :: l) = f a + lsum f l.
+Proof. reflexivity. Qed.
+Lemma lsum_nil {A} (f : A -> nat) : lsum f [] = 0.
+Proof. reflexivity. Qed.
+
 Lemma lsum_app {A} (f : A -> nat) l1 l2 : lsum f (l1 ++ l2) = lsum f l1 + lsum f l2.
 Proof. unfold lsum. induction l1 as [|a l1 IH]; cbn [app fold_right]; [reflexivity|]. rewrite IH. lia. Qed.
 
@@ -192,7 +197,7 @@ Proof.
     unfold bump_w2. cbn [s_w2 s_complete s_segcnt]. split; [exact W1|]. intros _. lia.
   - (* potential *)
     unfold potential, assign. cbn [c_outpipe c_pending c_seginpipe c_segfetch c_segcheck c_streams]. fold sid.
-    rewrite lsum_app. cbn [lsum fold_right xw_out x_retries].
+    rewrite lsum_app, lsum_cons, lsum_nil.
     pose proof (sp_sum_upd bump_w2 (c_streams c) 0 sid dummy_stream Hsid) as Hs. cbn [Nat.add] in Hs.
     fold (get_stream c sid) in Hs.
     assert (Hsp : sp sid (bump_w2 (get_stream c sid)) + per_assign <= sp sid (get_stream c sid)).
@@ -261,9 +266,9 @@ Lemma take_pending_lsum xid : forall l x rest, take_pending xid l = Some (x, res
 Proof.
   induction l as [|[i y] l IH]; intros x rest H; cbn in H; [discriminate|].
   destruct (i =? xid).
-  - inversion H; subst. reflexivity.
+  - inversion H; subst. rewrite lsum_cons. reflexivity.
   - destruct (take_pending xid l) as [[y' r']|] eqn:Ht; [|discriminate]. inversion H; subst.
-    cbn [lsum fold_right]. unfold lsum in IH. rewrite (IH _ _ eq_refl). unfold xw_pend at 1. cbn. lia.
+    rewrite !lsum_cons, (IH _ _ eq_refl). lia.
 Qed.
 
 (* bounded progress: an event that is not a new Consume either changes nothing or lowers the potential *)
@@ -274,7 +279,7 @@ Proof.
   - exfalso. eapply Hnc. reflexivity.
   - destruct (c_outpipe c) as [|x rest] eqn:Ho; [left; reflexivity|right].
     unfold potential. cbn [c_outpipe c_pending c_seginpipe c_segfetch c_segcheck c_streams]. rewrite Ho, lsum_app.
-    cbn [lsum fold_right]. unfold xw_out, xw_pend. cbn [snd]. lia.
+    rewrite !lsum_cons, lsum_nil. assert (xw_pend (c_nextx c, x) + 1 = xw_out x) by (unfold xw_pend, xw_out; cbn [snd]; lia). lia.
   - destruct (c_seginpipe c) as [|[sid0 r] rest] eqn:Hsq; [left; reflexivity|right].
     destruct Hi as (H1 & H2 & H3 & H4 & H5 & H6). rewrite Hsq in H2. inversion H2 as [|? ? [Ha Hb] Hc]; subst. cbn in Ha, Hb.
     set (c1 := mkcl _ _ _ _ _ rest _ _ _ _).
@@ -325,7 +330,7 @@ Proof.
       try (match goal with |- potential (match x_kind x with SegI _ => push_segin _ _ ?r | MetaI => _ end) < _ => specialize (Hfinal r); lia end).
     destruct (x_retries x) as [|k] eqn:Er; [specialize (Hfinal RTimeout); lia|].
     unfold potential, push_out, c1 in *. cbn [c_outpipe c_pending c_seginpipe c_segfetch c_segcheck c_streams] in *.
-    rewrite lsum_app. cbn [lsum fold_right]. unfold xw_out at 2. cbn [x_retries]. lia.
+    rewrite lsum_app, lsum_cons, lsum_nil. unfold xw_out at 2. cbn [x_retries]. lia.
 Qed.
 
 (* consequence: an honest run without new Consume calls changes the state at most `potential c` times; in particular it
@@ -350,5 +355,26 @@ Proof.
     + rewrite Es in *. apply IH; assumption.
     + specialize (IH (step c e) k' Hl' Hw' Hr Hnc' Hch).
       destruct (step_progress c e (proj1 Hl) Hw He Hne) as [E|Hlt]; [contradiction|lia].
+Qed.
+
+Lemma w2_inv_init : w2_inv cl_init.
+Proof. intros sid Hs. unfold nstreams in Hs. cbn in Hs. lia. Qed.
+
+Lemma reachable_invs : forall evs c, run_ok W c evs -> live_inv W c -> w2_inv c ->
+  live_inv W (fold_left step evs c) /\ w2_inv (fold_left step evs c).
+Proof.
+  induction evs as [|e evs IH]; intros c Hok Hl Hw; [auto|]. cbn in *. destruct Hok as [He Hr].
+  apply IH; [exact Hr|apply live_inv_step; assumption|apply w2_inv_step; [apply Hl|exact He|exact Hw]].
+Qed.
+
+(* from any state reachable in an honest run: at most `potential` further state-changing events without a new Consume *)
+Theorem bounded_progress_reachable : forall evs0 evs k, run_ok W cl_init evs0 ->
+  let c := fold_left step evs0 cl_init in
+  run_ok W c evs -> Forall (fun e => forall nm pol, e <> EvConsume nm pol) evs -> changes c evs k ->
+  k + potential (fold_left step evs c) <= potential c.
+Proof.
+  intros evs0 evs k Hok0 c Hok Hnc Hch.
+  destruct (reachable_invs evs0 cl_init Hok0 (live_inv_init W) w2_inv_init) as [Hl Hw].
+  apply bounded_progress; assumption.
 Qed.
 End Progress.
